@@ -265,7 +265,7 @@ func runC17(args []string) error {
 	g := &c17gen{r: newRng(*seed), sm: newSummary("C17")}
 	sm := g.sm
 	distinct := distinctSet{}
-	nHeaders, nLines, nSeqs, nE2E := 1500, 1500, 150, 12
+	nHeaders, nLines, nSeqs, nE2E := 1500, 1500, 150, 40
 	nameCtxs := []c17ctx{c17Ctxs[0], c17Ctxs[1+int(*seed)%(len(c17Ctxs)-1)]}
 	if *tier == "thorough" {
 		nHeaders, nLines, nSeqs, nE2E = 40000, 40000, 3000, 150
@@ -587,6 +587,10 @@ func runC17(args []string) error {
 			groups, adjacent := h.groups()
 			src := renderSource(groups, adjacent, fmt.Sprintf("\nfunc %s() string { return %q }\n", sym, sym))
 			src = strings.Replace(src, "package p\n", "package pkg\n", 1)
+			// spelling of the constraint comment: go/build (and yaegi) also accept "//+build" without a blank
+			if g.r.chance(35) {
+				src = strings.ReplaceAll(src, "// +build ", "//+build ")
+			}
 			mfs["src/pkg/"+name] = &fstest.MapFile{Data: []byte(src)}
 			files = append(files, fileDesc{name, src})
 			all = append(all, sym)
